@@ -477,6 +477,62 @@ func c11RoleManagerFaults(c *Ctx) {
 			c.Count("rm-failure-in-single-call-with-watcher")
 		}
 	}
+	// a reload rejected while the CONDITIONAL role links are built (a g2 line without its
+	// condition parameters, behind new valid plain grouping rules): the plain role links, the
+	// listing and the decisions stay what they were.  (What the conditional manager itself holds
+	// after such a failure is the subject of the observation O4, not of this predicate.)
+	{
+		text := "[request_definition]\nr = sub, obj, act\n[policy_definition]\np = sub, obj, act\n[role_definition]\ng = _, _\ng2 = _, _, (_, _)\n[policy_effect]\ne = some(where (p.eft == allow))\n[matchers]\nm = g(r.sub, p.sub) && r.obj == p.obj && r.act == p.act\n"
+		names := []string{"alice", "bob", "carol", "admin", "staff"}
+		olds := []prule{{"p", []string{"admin", "data1", "read"}}, {"p", []string{"staff", "data2", "read"}}, {"g", []string{"alice", "admin"}}, {"g2", []string{"alice", "auditor", "0000-01-01 00:00:00", "9999-12-30 00:00:00"}}}
+		fresh := []prule{{"p", []string{"admin", "data1", "read"}}, {"p", []string{"staff", "data2", "read"}}, {"g", []string{"bob", "admin"}}, {"g", []string{"alice", "staff"}}, {"g2", []string{"carol", "auditor", "0000-01-01 00:00:00", "9999-12-30 00:00:00"}}}
+		short := prule{"g2", []string{"alice", "auditor"}}
+		for pos := 0; pos <= len(fresh); pos++ {
+			mm, _ := model.NewModelFromString(text)
+			a := newRecAdapter()
+			a.Content = olds
+			e, err := casbin.NewEnforcer(mm, a)
+			if err != nil {
+				c.Direct("c11.cond.load", "initial load failed", err.Error())
+				break
+			}
+			snap := func() string {
+				var parts []string
+				rm := e.GetRoleManager()
+				for _, u := range names {
+					for _, r := range names {
+						if hl, _ := rm.HasLink(u, r); hl && u != r {
+							parts = append(parts, u+">"+r)
+						}
+					}
+					for _, o := range []string{"data1", "data2"} {
+						if ok, _ := e.Enforce(u, o, "read"); ok {
+							parts = append(parts, u+":"+o)
+						}
+					}
+				}
+				gp, _ := e.GetNamedGroupingPolicy("g")
+				g2, _ := e.GetNamedGroupingPolicy("g2")
+				pp, _ := e.GetPolicy()
+				return fmt.Sprintf("%s | g=%v g2=%v p=%v", strings.Join(parts, " "), gp, g2, pp)
+			}
+			before := snap()
+			var nc []prule
+			nc = append(nc, fresh[:pos]...)
+			nc = append(nc, short)
+			nc = append(nc, fresh[pos:]...)
+			a.Content = nc
+			lerr := e.LoadPolicy()
+			after := snap()
+			id := fmt.Sprintf("c11.cond.reload.%d", pos)
+			if lerr == nil {
+				c.Direct(id, "a g2 rule without its condition parameters did not make LoadPolicy fail", fmt.Sprintf("%v", nc))
+			} else if before != after {
+				c.Direct(id, "LoadPolicy failed while the conditional role links were built and left the enforcer changed", fmt.Sprintf("content=%v error=%v: %s -> %s", nc, lerr, before, after))
+			}
+			c.Count("conditional-link-failure-during-load")
+		}
+	}
 	// F17 (known): a failing AddLink inside AddGroupingPolicy leaves the rule listed without link
 	mm, _ := model.NewModelFromString(c11Conf.Text)
 	e, _ := casbin.NewEnforcer(mm)
